@@ -56,6 +56,17 @@ impl<'a, S: Database + 'static> Forger<'a, S> {
         if let Ok(p) = self.azks.get_non_membership_proof::<TC, _>(self.st, nl).await {
             out.push(p);
         }
+        // the same 256 bits claimed with a shorter length: (val, 255) is not a node of the tree even when (val, 256) is,
+        // so a perfectly valid non-membership proof exists for it - it must not pass as a statement about the 256-bit label
+        for len in [255u32, 248] {
+            for short in [NodeLabel::new(nl.label_val, len), nl.get_prefix(len)] {
+                if let Ok(p) = self.azks.get_non_membership_proof::<TC, _>(self.st, short).await {
+                    if !out.contains(&p) {
+                        out.push(p);
+                    }
+                }
+            }
+        }
         let t = self.tree();
         let path = t.path(nl).await;
         for i in (0..path.len()).rev() {
